@@ -2,7 +2,7 @@ open Arena
 open Vio
 (* same case syntax and observation format as harness/h_arena.c
 
-   A es al maxalloc maxcached mis | nfail f.. | T | ops(t0) | .. | ops(T-1) | sched
+   A es al maxalloc maxcached mis [fx] | nfail f.. | T | ops(t0) | .. | ops(T-1) | sched
        ops: 1 cnt = get cnt elements, 2 k = release k-th held block, 3 k u = give k-th held block to thread u
    M eltsize cls | T | ops(t0) | .. | sched
        ops: 1 = allocate, 2 k = free k-th held element, 3 k u = give *)
@@ -48,6 +48,8 @@ let arena_case fields =
     let hv = ints hd in
     let es = List.nth hv 0 and al = List.nth hv 1 and ma = List.nth hv 2 and mc = List.nth hv 3
     and mis = List.nth hv 4 in
+    (* optional 6th number: 1 = model of the repaired release_chunk (notes/findings/C27-cache-limit-race.patch) *)
+    let fx = (match List.nth_opt hv 5 with Some 1 -> true | _ -> false) in
     let fails = (match ints fl with _ :: r -> List.map nat_of_int r | [] -> []) in
     let nt = (match ints th with n :: _ -> n | [] -> 0) in
     let progs = List.map (fun f -> parse_aops (ints f)) (take nt rest) in
@@ -62,7 +64,7 @@ let arena_case fields =
          mxl := max !mxl (List.length c.a_lifo); mxv := max !mxv (int_of_z (a_live c)) in
        let is_done_t c t = match List.nth_opt c.a_thr t with Some x -> a_is_done x | None -> true in
        let all_done c = List.for_all a_is_done c.a_thr in
-       let (c, steps, dl) = run_sched (astep p fails) all_done is_done_t (ainit progs) nt sched sample in
+       let (c, steps, dl) = run_sched (astep fx p fails) all_done is_done_t (ainit progs) nt sched sample in
        let base b = (mis * (b + 1)) mod 4096 in
        let res_str = function
          | RGot (b, cnt) ->
